@@ -209,7 +209,7 @@ META = {
     'required_covers': ['nontrivial', 'ack-dropped', 'data-dropped', 'lossless-path', 'reordered-by-delay', 'finite-finish-time'],
     'bounds': {'quick': 'Part A: n<=4 segments, seq>=0 and size>=1 symbolic (also MSS-aligned); Part B: flow of 2-3 MSS, drop pattern over the '
                         'first 4 data / 4 ACK transmissions (or 3+3), plus flows of 5-6 MSS with at most 2 drops anywhere among the first m+3 data / ACK transmissions; '
-                        'one-way delays {0.25,1.5}, initial RTT estimate 1.0, Reno and CUBIC, horizon 1e5',
+                        'one-way delays {0.25,1.5}, initial RTT estimate 1.0, Reno and CUBIC, horizon 1e5; flows with a finish time (reliability of everything sent)',
                'thorough': 'Part A n<=5; Part B 1-4 MSS, up to 6 data / 6 ACK drops; 5, 6, 8 MSS with <= 2 drops'},
     'assumptions': ['Part B: path delays and the initial RTT estimate are concrete; on the Boolean drop axis the solver enumerates 2^k patterns',
                     'reliability is asserted at a concrete horizon (1e5 s) rather than at agenda exhaustion'],
